@@ -1,6 +1,6 @@
 (* C02 / C13 — the classes of blocks the theorems do not cover, as decidable predicates over
    the model, and the invariant of states under which the theorems are stated.  Definitions
-   only.  At /repo 92b2ed5 every defect that was found in these classes is repaired (fee
+   only.  At /repo 9007b23 every defect that was found in these classes is repaired (fee
    transaction omitted, zero-key golden ticket, uncounted Bound/BlockStake fees, input older
    than the window, rebroadcast input elsewhere, block id jump, 5 % cap branch, stray Bound
    output, SPV transaction with a valued input, saturating payout product); what remains
